@@ -135,6 +135,8 @@ class Gen(object):
                 self.faults["%s:%s" % (k, key)] = rnd.choice(self.p["item_fault_modes"])
             elif rnd.random() < self.p["p_spawn"]:
                 self.faults["%s:%s" % (k, key)] = "spawn"
+            elif rnd.random() < self.p.get("p_nestedsync", 0.0):
+                self.faults["%s:%s" % (k, key)] = "nestedsync"
             return ["item", k, key]
         if kind == "dbg":
             self.key += 1
